@@ -254,7 +254,8 @@ def _composite(rng, k, m, n, depth, o):
         ms, ns = factorize(rng, m, nf), factorize(rng, n, nf)
         if sum(1 for a, b in zip(ms, ns) if a * b > 1) < 2:
             return None
-        return {"k": "Kronecker", "via": via, "args": [gen_tree(rng, min(d, 1), o, (a, b)) for a, b in zip(ms, ns)]}
+        return {"k": "Kronecker", "via": "fn-right" if (via == "fn" and rng.random() < 0.4) else via,
+                "args": [gen_tree(rng, min(d, 1), o, (a, b)) for a, b in zip(ms, ns)]}
     if k == "KronSum":
         if m != n or n < 4:
             return None
@@ -262,7 +263,8 @@ def _composite(rng, k, m, n, depth, o):
         ns = factorize(rng, n, nf)
         if sum(1 for a in ns if a > 1) < 2:
             return None
-        return {"k": "KronSum", "via": via, "args": [gen_tree(rng, min(d, 1), o, (a, a)) for a in ns]}
+        return {"k": "KronSum", "via": "fn-right" if (via == "fn" and rng.random() < 0.4) else via,
+                "args": [gen_tree(rng, min(d, 1), o, (a, a)) for a in ns]}
     if k == "BlockDiag":
         b = int(rng.integers(1, 4))
         use_mult = rng.random() < 0.6
